@@ -230,18 +230,22 @@ Context {I J : Type} (f : I -> J).
 Notation vm := (vmap f).
 Notation tm := (tmap f).
 
+Lemma run_at_map c p (st : list (val I)) (tr : list (tent I)) :
+  run_at c p (map vm st) (map tm tr) = map (omap f) (run_at c p st tr).
+Proof. unfold run_at. destruct (ncaches c p); reflexivity. Qed.
+
 Lemma obs_commute c (s : state I) : obs c (smap f s) = map (omap f) (obs c s).
 Proof.
   destruct s as [p st tr]. unfold obs. cbn [smap pc stack truth].
-  destruct (at_ c p); try reflexivity.
-  - destruct st as [|[] r]; reflexivity.
+  destruct (at_ c p); try reflexivity; try apply run_at_map.
+  - destruct st as [|[] r]; try reflexivity. apply (run_at_map c p (VO :: r) tr).
   - destruct st; reflexivity.
-  - rewrite nth_error_map'. destruct (nth_error st (S n)) as [[]|]; cbn [option_map vmap map omap];
-      rewrite ?set_phase_map; reflexivity.
-  - rewrite nth_error_map'. destruct (nth_error st 3) as [[]|]; cbn [option_map vmap map omap];
-      rewrite ?set_phase_map; reflexivity.
-  - destruct raises; reflexivity.
-  - destruct raises; reflexivity.
+  - rewrite nth_error_map'. destruct (nth_error st (S n)) as [[]|]; cbn [option_map vmap];
+      rewrite ?set_phase_map; apply run_at_map.
+  - rewrite nth_error_map'. destruct (nth_error st 3) as [[]|]; cbn [option_map vmap]; try reflexivity.
+    rewrite set_phase_map. apply run_at_map.
+  - destruct raises; [apply run_at_map|reflexivity].
+  - destruct raises; [apply run_at_map|reflexivity].
 Qed.
 
 Lemma expected_commute (tr : list (tent I)) : expected (map tm tr) = map (cmap f) (expected tr).
@@ -600,6 +604,14 @@ Proof.
   inversion Hj; subst. cbn [c_from]. apply (in_map (fun e => (t_site e, t_inst e))) in He. exact He.
 Qed.
 
+Lemma run_at_in {I} c p (st : list (val I)) (tr : list (tent I)) r l st' tr' :
+  In (r, l, st', tr') (run_at c p st tr) -> st' = st /\ tr' = tr.
+Proof.
+  unfold run_at. destruct (ncaches c p); cbn [In]; intros H.
+  - destruct H as [H|[]]; inversion H; auto.
+  - destruct H as [H|[H|[]]]; inversion H; auto.
+Qed.
+
 Lemma obs_ids {I} c (s : state I) r l st tr :
   In (r, l, st, tr) (obs c s) -> incl (tags st) (tags (stack s)) /\ incl (tids tr) (tids (truth s)).
 Proof.
@@ -608,10 +620,11 @@ Proof.
     repeat match goal with
            | |- In _ (match ?x with _ => _ end) -> _ => destruct x eqn:?
            end;
-    intros Hq; cbn [In] in Hq; try (destruct Hq; fail);
-    destruct Hq as [Hq|[]]; inversion Hq; subst; clear Hq;
-    rewrite ?tids_set_phase; split; try apply incl_refl.
-  all: try (rewrite tags_cons; apply incl_appr, incl_refl).
+    intros Hq; try (destruct Hq; fail);
+    try (apply run_at_in in Hq; destruct Hq as [-> ->]; rewrite ?tids_set_phase; split; apply incl_refl).
+  (* IYield *)
+  cbn [In] in Hq. destruct Hq as [Hq|[]]. inversion Hq; subst; clear Hq.
+  split; [rewrite tags_cons; apply incl_appr, incl_refl|apply incl_refl].
 Qed.
 
 Lemma cmap_inj_under {I} (P : nat * I -> Prop)
